@@ -652,6 +652,14 @@ impl Exec {
                 if last - first > 254 {
                     self.stats.bump("w.fill_over254");
                 }
+                let c = &self.cfgs[self.cfg_idx];
+                if c.block_size[0] >= (1 << 20) && c.hash_ratio[0] > 0.0 {
+                    let r = c.restart[0].max(1) as usize;
+                    let intervals = (last - first).div_ceil(r);
+                    if (253..=257).contains(&intervals) {
+                        self.stats.bump(&format!("dense.block_with_{intervals}_restart_intervals"));
+                    }
+                }
             }
             Op::Rotate => {
                 let r = self.tree().rotate_memtable();
